@@ -49,7 +49,7 @@ func genTCPStickyPlan(seed uint64, tier string) *Plan {
 			"fromTag": g.tagValue(), "toTag": g.tagValue(),
 			"status": g.pick("200", "200", "200", "202"),
 			"prov":   g.pick("", "", "180", "100"),
-		}, I: map[string]int{"plainBefore": g.intn(3), "plainBetween": g.intn(3), "infos": g.rng(1, 3), "newConn": g.intn(4), "rev": g.intn(3), "gapS": g.pick2(0, 0, 1, 30)}}
+		}, I: map[string]int{"plainBefore": g.intn(3), "plainBetween": g.intn(3), "infos": g.rng(1, 3), "newConn": g.intn(4), "rev": g.intn(3), "gapS": g.pick2(0, 0, 1, 30), "restartAt": g.pick2(-1, -1, 1, 2)}}
 		p.Ops = append(p.Ops, op)
 	}
 	return p
@@ -155,6 +155,16 @@ func execTCPSticky(t *testing.T, p *Plan) *Result {
 			}
 			methods = append(methods, "BYE")
 			for k, m := range methods {
+				if k == op.I["restartAt"] && end != nil && !end.Closed() && !end.IsReset() {
+					// the backend closes the connection the proxy opened to it (a restart, an idle timeout) and keeps
+					// listening: the dialog's next request belongs on a new connection to the same backend
+					end.Close()
+					end = nil
+					w.stat("probe:pinned-tcp-backend-closed-its-connection")
+					if !w.K.Settle(10*time.Second) || w.dead() {
+						return
+					}
+				}
 				if !plain(op.I["plainBetween"], ua) {
 					return
 				}
@@ -170,7 +180,9 @@ func execTCPSticky(t *testing.T, p *Plan) *Result {
 					return
 				}
 				w.Stats["judged:"+prop]++
+				delivered := false
 				for _, e := range emOf(mid) {
+					delivered = delivered || e.E.Dst == backend && e.E.Err == ""
 					if e.E.Dst != backend {
 						rule, sig := "in-dialog-request-left-its-backend", fmt.Sprintf("tcpBackends=true;method=%s;rev=%v", m, f != from)
 						if prop == "C15" {
@@ -179,6 +191,15 @@ func execTCPSticky(t *testing.T, p *Plan) *Result {
 						w.Viol = append(w.Viol, Violation{Prop: prop, Rule: rule, Msg: mid, Sig: sig,
 							Detail: fmt.Sprintf("the dialog %s was established by the answer of TCP backend %s (over the connection the proxy opened to it); its %s was sent to %s/%s", callID, backend, m, e.E.Proto, e.E.Dst)})
 					}
+				}
+				if !delivered && end == nil && op.I["restartAt"] >= 0 && k >= op.I["restartAt"] {
+					// no faults in this world but the closed connection, and the backend accepts new ones
+					rule := "in-dialog-request-left-its-backend"
+					if prop == "C15" {
+						rule = "pin-not-honoured"
+					}
+					w.Viol = append(w.Viol, Violation{Prop: prop, Rule: rule, Msg: mid, Sig: fmt.Sprintf("tcpBackends=true;method=%s;afterBackendReconnect=true;delivered=none", m),
+						Detail: fmt.Sprintf("the dialog %s is pinned to TCP backend %s, which closed the proxy's connection and accepts new ones; its %s was written to no connection towards that backend", callID, backend, m)})
 				}
 			}
 		}
